@@ -80,7 +80,9 @@ func (g *c04Gen) body(d int, inTx bool, maxKids int, top bool) []*c04Node {
 				nm = int64(1 + g.rng.Intn(4)) // possibly an outer / unknown name
 			}
 			out = append(out, &c04Node{K: "rb", ID: nm, Must: must})
-		case r < 72 && d > 0 && (!inTx || g.rng.Intn(4) == 0):
+		case r < 80 && r >= 66 && d > 0:
+			out = append(out, g.derive(d, inTx, maxKids, must))
+		case r < 84 && d > 0 && (!inTx || g.rng.Intn(4) == 0):
 			out = append(out, &c04Node{K: "man", Body: g.body(d-1, true, maxKids, false), Out: g.rng.Intn(2), Must: must})
 		case d > 0:
 			out = append(out, &c04Node{K: "blk", Body: g.body(d-1, true, maxKids, false), Out: c04OutDist(g.rng), ID: g.tag(), Must: must})
@@ -89,6 +91,93 @@ func (g *c04Gen) body(d int, inTx bool, maxKids int, top bool) []*c04Node {
 		}
 	}
 	return out
+}
+
+// derive node: a random derivation kind; single-use (clone = 0) derivations get exactly one operation / block / further
+// derivation, the others a whole body. The derived handle is used INSIDE transactions, and Transaction / Begin are invoked
+// ON derived handles (chained clone = 0 and Session-derived clone = 2 ones included).
+func (g *c04Gen) derive(d int, inTx bool, maxKids int, must bool) *c04Node {
+	kind := c04DeriveKinds[g.rng.Intn(len(c04DeriveKinds))]
+	if g.rng.Intn(3) == 0 { // the pool-changing / flag-changing classes are the interesting ones: over-sample
+		kind = []string{"prep:Session", "prep:Context", "prep:All", "newdb:Session", "where:Ne", "skiptx:Session", "disnested:Session"}[g.rng.Intn(7)]
+	}
+	n := &c04Node{K: "dv", Kind: kind, Must: must}
+	if kind == "where:Ne" {
+		n.ID = 102 + int64(g.rng.Intn(2)) // 102 exists initially, 103 never does; neither is ever inserted
+		if g.rng.Intn(8) == 0 && len(g.known) > 0 {
+			n.ID = g.known[g.rng.Intn(len(g.known))] // an id the program inserts / deletes: `DELETE … id <> k AND id = k`
+		}
+	}
+	if !c04SingleUse[kind] {
+		n.Body = g.body(d-1, inTx, maxKids, false)
+		if len(n.Body) == 0 {
+			n.Body = []*c04Node{{K: "w", ID: g.id(), Must: true}}
+		}
+		return n
+	}
+	m := g.rng.Intn(100) < 65
+	switch r := g.rng.Intn(10); {
+	case r < 2:
+		n.Body = []*c04Node{{K: "w", ID: g.id(), Must: m}}
+	case r < 3 && len(g.known) > 0:
+		n.Body = []*c04Node{{K: "d", ID: g.known[g.rng.Intn(len(g.known))], Must: m}}
+	case r < 4:
+		n.Body = []*c04Node{{K: "q", Must: m}}
+	case r < 7:
+		n.Body = []*c04Node{{K: "blk", Body: g.body(d-1, true, maxKids, false), Out: c04OutDist(g.rng), ID: g.tag(), Must: m}}
+	case r < 8 && !inTx:
+		n.Body = []*c04Node{{K: "man", Body: g.body(d-1, true, maxKids, false), Out: g.rng.Intn(2), Must: m}}
+	default:
+		n.Body = []*c04Node{g.derive(d-1, inTx, maxKids, m)}
+	}
+	return n
+}
+
+// exhaustive derive family: every derivation kind at every site — the block invoked ON the derived handle (top level and
+// nested), writes / save points THROUGH a derived handle inside a block and inside a manual sequence, and the derived
+// handle itself derived from a per-session PrepareStmt handle (tx pool = *PreparedStmtTX also without Config.PrepareStmt)
+func c04DeriveFamily() [][]*c04Node {
+	var res [][]*c04Node
+	w := func(id int64) *c04Node { return &c04Node{K: "w", ID: id, Must: true} }
+	q := func() *c04Node { return &c04Node{K: "q", Must: true} }
+	for _, kind := range c04DeriveKinds {
+		arg := int64(0)
+		if kind == "where:Ne" {
+			arg = 102
+		}
+		dv := func(must bool, kids ...*c04Node) *c04Node {
+			return &c04Node{K: "dv", Kind: kind, ID: arg, Body: kids, Must: must}
+		}
+		outer := func(k string, kids ...*c04Node) *c04Node { return &c04Node{K: "dv", Kind: k, Body: kids, Must: true} }
+		for out := 0; out < 3; out++ {
+			// T1: the block is invoked on the derived handle
+			res = append(res, []*c04Node{dv(false, &c04Node{K: "blk", Body: []*c04Node{w(1), q()}, Out: out, ID: 1, Must: true}), w(2), q()})
+			// T2: a write through a derived handle inside the block
+			res = append(res, []*c04Node{{K: "blk", Body: []*c04Node{w(1), dv(true, w(2)), q()}, Out: out, ID: 1, Must: false}, q()})
+			// T3: a nested block invoked on a derived handle (ignored by the outer function, which returns nil)
+			res = append(res, []*c04Node{{K: "blk", Body: []*c04Node{w(1),
+				dv(false, &c04Node{K: "blk", Body: []*c04Node{w(2), q()}, Out: out, ID: 1, Must: true}), q()}, Out: 0, ID: 2, Must: true}, q()})
+			// T8: nested block inside a block that was itself invoked on the derived handle (the transaction handle is then a
+			//     clone = 2 handle carrying the derivation's Statement); reads at both levels
+			res = append(res, []*c04Node{dv(true, &c04Node{K: "blk", Body: []*c04Node{w(1),
+				{K: "blk", Body: []*c04Node{q(), w(2)}, Out: out, ID: 1, Must: false}, q()}, Out: 0, ID: 2, Must: true}), q()})
+			// T9: … and behind Session{NewDB: true} (clone = 1 handle whose Statement still holds the derivation's state)
+			res = append(res, []*c04Node{{K: "blk", Body: []*c04Node{w(1), dv(true, outer("newdb:Session",
+				&c04Node{K: "blk", Body: []*c04Node{q(), outer("keep:Session", q()), w(2)}, Out: out, ID: 1, Must: false})), q()}, Out: 0, ID: 2, Must: true}, q()})
+			// T7: the same below a per-session PrepareStmt handle / a chained handle (outer derivation × inner derivation)
+			for _, ok := range []string{"prep:Session", "keep:Session"} {
+				res = append(res, []*c04Node{outer(ok, &c04Node{K: "blk", Body: []*c04Node{w(1), dv(true, w(2)), q()}, Out: out, ID: 1, Must: false}), q()})
+			}
+		}
+		for fin := 0; fin < 2; fin++ {
+			// T4: manual sequence, write and save point / rollback-to through derived handles
+			res = append(res, []*c04Node{{K: "man", Body: []*c04Node{w(1), dv(true, w(2)), dv(true, &c04Node{K: "sp", ID: 1, Must: true}), w(3),
+				dv(true, &c04Node{K: "rb", ID: 1, Must: true}), q()}, Out: fin, Must: true}, q()})
+			// T5: Begin on the derived handle, a further PrepareStmt session inside
+			res = append(res, []*c04Node{dv(true, &c04Node{K: "man", Body: []*c04Node{w(1), outer("prep:Session", w(2)), q()}, Out: fin, Must: true}), q()})
+		}
+	}
+	return res
 }
 
 func c04OutDist(rng *rand.Rand) int {
@@ -237,10 +326,34 @@ func (cr *c04Runner) flush() {
 		for _, c := range cr.cases[start:end] {
 			ops = append(ops, []interface{}{"tx.run", c.Cfg, c.Mask, c.Initial, c.Body, c.AllowRb})
 		}
+		for _, c := range cr.cases[start:end] {
+			ops = append(ops, []interface{}{"tx.spec", c.Cfg, c.Mask, c.Initial, c.Body})
+		}
 		outs, err := AskLean(ops)
 		if err != nil {
 			r.Violate(Violation{Kind: "correspondence", Suite: "tie", Note: err.Error()})
 			return
+		}
+		// the functional reference `spec` (Model/Tx.lean; what C04_refines is about) against the REAL run, on the fragment the
+		// refinement covers: no RollbackTo node, no stale use of a poisoned handle (finding F18), no fault in a ROLLBACK TO
+		for i, c := range cr.cases[start:end] {
+			o := cr.obs[start+i]
+			if o.Stale || o.exec.rbFault || c04HasKind(c.body, "rb") {
+				r.H("spec_vs_real", "outside the fragment")
+				continue
+			}
+			var m map[string]interface{}
+			if err := json.Unmarshal(outs[end-start+i], &m); err != nil {
+				r.Violate(Violation{Kind: "correspondence", Suite: "spec", Input: c, Observed: o, Expected: string(outs[end-start+i]), Note: "reference rejects the program"})
+				continue
+			}
+			r.H("spec_vs_real", "compared")
+			r.Case("spec", canon(c), len(o.exec.faulted) > 0)
+			real := canon(map[string]interface{}{"store": o.Store, "res": o.Res})
+			if ref := canon(m); real != ref {
+				r.Violate(Violation{Kind: "correspondence", Suite: "spec", Input: c, Observed: json.RawMessage(real), Expected: json.RawMessage(ref),
+					Note: "real gorm run vs Model/Tx.lean `spec` (snapshot-restore reference) on the same program, fault mask and configuration"})
+			}
 		}
 		for i, c := range cr.cases[start:end] {
 			o := cr.obs[start+i]
@@ -296,6 +409,15 @@ func (cr *c04Runner) stats(c *c04Case, o *c04Obs) {
 	}
 }
 
+func c04HasKind(body []*c04Node, k string) bool {
+	for _, n := range body {
+		if n.K == k || c04HasKind(n.Body, k) {
+			return true
+		}
+	}
+	return false
+}
+
 func bucket(n int) string {
 	switch {
 	case n == 0:
@@ -310,6 +432,8 @@ func bucket(n int) string {
 	return "16+"
 }
 
+var inTxShape bool
+
 func c04Shape(body []*c04Node, d int) (depth, nodes int, kinds map[string]int) {
 	kinds = map[string]int{}
 	depth = d
@@ -320,8 +444,24 @@ func c04Shape(body []*c04Node, d int) (depth, nodes int, kinds map[string]int) {
 			k = fmt.Sprintf("blk/%s", []string{"nil", "err", "panic"}[n.Out])
 		}
 		kinds[k]++
-		if n.K == "blk" || n.K == "man" {
+		if n.K == "dv" {
+			k = "dv/" + n.Kind
+			kinds["dv-site/"+map[bool]string{true: "inside-tx", false: "top-level"}[inTxShape]]++
+			for _, c := range n.Body {
+				if c.K == "blk" || c.K == "man" {
+					kinds["block-invoked-on-derived/"+strings.SplitN(n.Kind, ":", 2)[0]]++
+				}
+			}
+			kinds[k]++
+			kinds[n.K]--
+		}
+		if n.K == "blk" || n.K == "man" || n.K == "dv" {
+			saved := inTxShape
+			if n.K != "dv" {
+				inTxShape = true
+			}
 			dd, nn, kk := c04Shape(n.Body, d+1)
+			inTxShape = saved
 			if dd > depth {
 				depth = dd
 			}
@@ -397,6 +537,22 @@ func init() {
 				}
 			}
 			r.Exhaustive = false
+			// 2b. every derivation kind at every site × configs × every single fault
+			for i, body := range c04DeriveFamily() {
+				for j, cfg := range cfgs {
+					// quick: 4 of the 16 configurations per tree, rotating (every configuration meets every kind and site)
+					if tier == "quick" && (j+16-i%16)%16%5 != 0 {
+						continue
+					}
+					cr.allSingleFaults(cfg, []int64{102}, body)
+				}
+				if expired() {
+					break
+				}
+				if len(cr.cases) >= 8000 {
+					cr.flush()
+				}
+			}
 		}
 		cr.flush()
 
@@ -412,7 +568,7 @@ func init() {
 			g := &c04Gen{rng: rng, nextID: 0, known: []int64{100, 101}}
 			body := g.body(depth, false, 3, true)
 			cfg := cfgs[rng.Intn(len(cfgs))]
-			base := mkCase(cfg, []int64{100, 101}, body, nil, false)
+			base := mkCase(cfg, []int64{100, 101, 102}, body, nil, false)
 			o := cr.run(base, "rand-base")
 			cr.stats(base, o)
 			calls := len(o.Trace)
@@ -428,7 +584,7 @@ func init() {
 				}
 				sort.Ints(mask)
 				// ROLLBACK TO statements are failed only in a minority of runs (those runs are compared with the model but not judged)
-				c := mkCase(cfg, []int64{100, 101}, body, mask, rng.Intn(5) == 0)
+				c := mkCase(cfg, []int64{100, 101, 102}, body, mask, rng.Intn(5) == 0)
 				oo := cr.run(c, "rand")
 				cr.stats(c, oo)
 				if i < 3 && j == 0 {
@@ -461,6 +617,7 @@ func init() {
 	}
 	replayers["C04/e2e"] = replay
 	replayers["C04/tie"] = replay
+	replayers["C04/spec"] = replay
 }
 
 // minimal witness of the listed finding: the SAVEPOINT of an ignored nested block fails, the outer function goes on and
